@@ -132,6 +132,19 @@ class Evaluator:
             raise AnalysisError(f"binary operator outside the abstract domain: {norm(e)}")
         return f(self.ev(e.left), self.ev(e.right))
 
+    def ev_Subscript(self, e):
+        if not self.arith or isinstance(e.slice, ast.Slice):
+            raise AnalysisError(f"subscript outside the abstract domain: {norm(e)}")
+        base = self.ev(e.value)
+        if not isinstance(base, (list, tuple, dict, range)):
+            raise AnalysisError(f"subscript outside the abstract domain: {norm(e)}")
+        try:
+            return base[self.ev(e.slice)]
+        except IndexError:
+            raise Raised('IndexError')
+        except KeyError:
+            raise Raised('KeyError')
+
     def ev_IfExp(self, e):
         return self.ev(e.body) if self.ev(e.test) else self.ev(e.orelse)
 
